@@ -58,6 +58,22 @@ class DefRecorder:
         self.ev('def.new', h=h, given=v, out='ok', post=self.post())
         return d
 
+    def names_arg(self, names):
+        """The names argument (docstrings: "Iterable of ... name strings") as list / tuple / one-shot generator /
+        iterator / dict keys view, in rotation; order and repeats as given."""
+        self._nk = getattr(self, '_nk', 0) + 1
+        names = list(names)
+        k = self._nk % 5
+        if k == 1:
+            return tuple(names)
+        if k == 2:
+            return (x for x in names)
+        if k == 3:
+            return iter(names)
+        if k == 4 and len(set(names)) == len(names):
+            return dict.fromkeys(names).keys()
+        return names
+
     def fork(self, h, new):
         self.live[new] = copy.deepcopy(self.live[h])
         self.ev('def.fork', h=h, new=new)
@@ -75,9 +91,9 @@ class DefRecorder:
                 d[c['o'], c['p']] = val
                 r = None
             elif op in ('add_object', 'set_object'):
-                r = getattr(d, op)(c['o'], list(c['names']))
+                r = getattr(d, op)(c['o'], self.names_arg(c['names']))
             elif op in ('add_property', 'set_property'):
-                r = getattr(d, op)(c['p'], list(c['names']))
+                r = getattr(d, op)(c['p'], self.names_arg(c['names']))
             elif op == 'remove_object':
                 r = d.remove_object(c['o'])
             elif op == 'remove_property':
